@@ -357,7 +357,10 @@ def fnv(b):
 def write_ndjson(path, records):
     with open(path, "w") as f:
         for r in records:
-            f.write(json.dumps(r) + "\n")
+            line = json.dumps(r)
+            if "null" in line and re.search(r"(?<![\\\w\"])null(?![\w\"])", line):
+                raise ToolError("record with a JSON null (TLC cannot read it): " + line[:400])
+            f.write(line + "\n")
 
 
 # --------------------------------------------------------------------------
